@@ -13,7 +13,6 @@ import (
 	"time"
 
 	"github.com/arm-doe/sts"
-	"github.com/arm-doe/sts/fileutil"
 )
 
 type logMsg struct {
@@ -370,15 +369,16 @@ func (rf *rollingFile) search(text []string, start time.Time, stop time.Time) bo
 	if len(text) == 0 {
 		return false
 	}
-	b := []byte(text[0])
-	var line string
-	return rf.each(func(path string) bool {
-		line = fileutil.FindLine(path, b)
-		if line == "" {
+	// The first pattern is the record's name field: it has to match that field
+	// exactly (not merely be contained somewhere in the line) and every record
+	// of the name has to be considered, not just the first line that mentions it.
+	prefix := text[0] + ":"
+	return rf.eachLine(func(line string) bool {
+		if !strings.HasPrefix(line, prefix) {
 			return false
 		}
 		for _, t := range text[1:] {
-			if !strings.Contains(line, t) {
+			if !strings.Contains(line[len(text[0]):], t) {
 				return false
 			}
 		}
